@@ -113,6 +113,9 @@ func find[V any](gen func(*T) (V, bool), t *T, tries int) V {
 	for n := 0; n < tries; n++ {
 		i := t.s.beginGroup(tryLabel, false)
 		v, ok := gen(t)
+		if !ok {
+			t.failOnError() // a non-fatal failure signalled during a rejected attempt must not be discarded with it
+		}
 		t.s.endGroup(i, !ok)
 		if ok {
 			return v
